@@ -23,6 +23,7 @@ type c02Case struct {
 	Perm   []int     `json:"perm"`   // registration order actually used: Routes[Perm[0]], Routes[Perm[1]], ...
 	Hosts  []c02Host `json:"hosts,omitempty"`
 	Req    rReq      `json:"req"`
+	Pre    bool      `json:"pre,omitempty"` // a (no-op) Pre middleware is installed: host selection and routing happen inside the Pre chain
 }
 
 type c02Obs struct {
@@ -86,6 +87,9 @@ func c02Serve(c *c02Case, perm []int) c02Obs {
 	}
 	for _, k := range hostAt[len(perm)] {
 		regHost(k)
+	}
+	if c.Pre {
+		e.Pre(func(next echo.HandlerFunc) echo.HandlerFunc { return func(ctx echo.Context) error { return next(ctx) } })
 	}
 	rServe(e, &cur, c.Req)
 	return c02Obs{cur, table}
@@ -273,7 +277,7 @@ func c02Gen(r *rand.Rand, tier string) []any {
 				}
 			}
 			p := perms[r.Intn(len(perms))]
-			out = append(out, &c02Case{Routes: routes, Perm: p, Hosts: hosts, Req: q})
+			out = append(out, &c02Case{Routes: routes, Perm: p, Hosts: hosts, Req: q, Pre: r.Intn(4) == 0})
 		}
 	}
 	return out
